@@ -829,18 +829,30 @@ func (g *Graph) adjacentDefs(n *GNode) map[types.Object]ast.Expr {
 			continue
 		}
 		as, ok := prev.Node.(*ast.AssignStmt)
-		if !ok || as.Tok != token.DEFINE || len(as.Lhs) != 1 || len(as.Rhs) != 1 {
+		if !ok || (as.Tok != token.DEFINE && as.Tok != token.ASSIGN) || len(as.Lhs) != 1 || len(as.Rhs) != 1 {
 			break
 		}
 		id, ok := as.Lhs[0].(*ast.Ident)
 		if !ok {
 			break
 		}
-		// the definition dominates the test with nothing but other definitions in between, so the variable still
-		// holds this value at the test, whatever is assigned to it later
-		v, _ := g.Info.Defs[id].(*types.Var)
-		if v == nil {
+		// the assignment dominates the test with nothing but other such assignments in between, so the variable
+		// still holds this value at the test, whatever is assigned to it elsewhere
+		v, _ := g.Info.ObjectOf(id).(*types.Var)
+		if v == nil || v.IsField() {
 			break
+		}
+		if out != nil {
+			// an earlier assignment is only usable when no later one of the chain wrote a variable it reads
+			clash := false
+			for o := range out {
+				if UsesObj(g.Info, as.Rhs[0], o, false) {
+					clash = true
+				}
+			}
+			if _, dup := out[v]; dup || clash {
+				break
+			}
 		}
 		// a definition further back is only usable when the later ones cannot have changed what it read:
 		// the later definitions must be free of calls other than len/cap
